@@ -1155,7 +1155,8 @@ def _gen_paint(world, rnd, bad=False) -> dict:
     if bad and value != 0 and world.frames > 1 and rnd.random() < 0.6 and not op.get("report_unchanged"):
         # invalid argument: one update whose pixels span two time points
         t2 = (t + 1 + rnd.randint(0, world.frames - 2)) % world.frames
-        if value not in world.nodes():  # a fresh label only (an existing label belongs to one frame)
+        if value not in world.nodes() and value not in world.stray_now():
+            # a fresh label only (an existing label - node or unselected detection - belongs to one frame)
             m2 = box_mask(world.shape, [_rand_box(rnd, world.shape, maxlen=3, minlen=2 if world.ndim == 4 else 1)])
             for lab, ts in world.stray_now().items():
                 if ts == t2:
